@@ -594,6 +594,20 @@ class PurityWorld:
             return
         kind = m["kind"]
         what = f"fit #{len(m['fits']) + 1} of {kind}"
+        if kind == "SparseKDE":
+            # domain guard (also for reduced traces): the grid is a subset of the estimator's
+            # descriptors - on an unrelated grid the localisation search of the unchanged tree
+            # need not terminate and nothing is specified
+            try:
+                G = np.asarray(self.resolve(op["args"]).get("X"), dtype=float)
+                Dd = np.asarray(getattr(obj, "descriptors"), dtype=float)
+                ok = G.ndim == 2 and Dd.ndim == 2 and G.shape[1] == Dd.shape[1] and all(np.any(np.all(Dd == g, axis=1)) for g in G)
+            except Exception:  # noqa: BLE001
+                ok = True
+            if not ok:
+                self.count("out_of_domain_grid_not_among_the_descriptors")
+                m["retired"] = True
+                return
 
         def dry():
             o2 = copy.deepcopy(obj)
